@@ -416,6 +416,47 @@ pub fn run(prop: &str, cases: &[String]) -> RunOut {
         let t: Vec<&str> = line.split_whitespace().collect();
         let (impl_line, err) = match t[0] {
             "tlvq" => run_query(&t, &mut out, line),
+            "bigentry" => {
+                // bigentry <tagidx> <len1> <len2>: an entry whose length needs the third / fourth length byte, a small
+                // entry behind it, then a resize of the big one; only headers and ranges are reported (not the buffer)
+                let tag: usize = t[1].parse().unwrap();
+                let (len1, len2): (usize, usize) = (t[2].parse().unwrap(), t[3].parse().unwrap());
+                let n = len1.max(len2) + 200;
+                let mut buf = vec![0u8; n];
+                fn go<const D: u64, const D2: u64>(buf: &mut [u8], len1: usize, len2: usize) -> Result<String, ProgramError> {
+                    let base = buf.as_ptr() as usize;
+                    let mut st = TlvStateMut::unpack(buf)?;
+                    let (s, _) = st.alloc::<Tag<D>>(len1, false)?;
+                    let r1 = (s.as_ptr() as usize - base, s.len());
+                    if len1 > 0 { s[0] = 0xa1; s[len1 - 1] = 0xa2; }
+                    let (s2, _) = st.alloc::<Tag<D2>>(3, false)?;
+                    s2.copy_from_slice(&[0xb1, 0xb2, 0xb3]);
+                    drop(st);
+                    let hdr1 = hex(&buf[..12]);
+                    let mut st = TlvStateMut::unpack(buf)?;
+                    let s = st.realloc_with_repetition::<Tag<D>>(len2, 0)?;
+                    let r1b = (s.as_ptr() as usize - base, s.len());
+                    let keep = len1.min(len2);
+                    let edge_ok = keep == 0 || (s[0] == 0xa1 && (if len2 >= len1 { s[len1 - 1] == 0xa2 && s[len1..].iter().all(|&x| x == 0) } else { true }));
+                    let second = st.get_bytes_with_repetition::<Tag<D2>>(0)?;
+                    let sec = (second.as_ptr() as usize - base, hex(second));
+                    drop(st);
+                    let tail_zero = buf[12 + len2 + 15..].iter().all(|&x| x == 0);
+                    Ok(format!("hdr1={hdr1} r1={}:{} hdr1b={} r1b={}:{} second={}:{} kept={} tail0={}", r1.0, r1.0 + r1.1, hex(&buf[..12]), r1b.0, r1b.0 + r1b.1, sec.0, sec.1, edge_ok as u8, tail_zero as u8))
+                }
+                let r = guarded(|| match tag % 4 { 0 => go::<{ PALETTE[0] }, { PALETTE[1] }>(&mut buf, len1, len2), 1 => go::<{ PALETTE[2] }, { PALETTE[3] }>(&mut buf, len1, len2),
+                    2 => go::<{ PALETTE[4] }, { PALETTE[5] }>(&mut buf, len1, len2), _ => go::<{ PALETTE[6] }, { PALETTE[7] }>(&mut buf, len1, len2) });
+                // independent expectation: type, LE length, value; the small entry directly behind; zero tail
+                let (ta, tb) = match tag % 4 { 0 => (PALETTE[0], PALETTE[1]), 1 => (PALETTE[2], PALETTE[3]), 2 => (PALETTE[4], PALETTE[5]), _ => (PALETTE[6], PALETTE[7]) };
+                let hdr = |tg: u64, l: usize| { let mut v = tg.to_le_bytes().to_vec(); v.extend((l as u32).to_le_bytes()); hex(&v) };
+                let exp = format!("hdr1={} r1=12:{} hdr1b={} r1b=12:{} second={}:b1b2b3 kept=1 tail0=1", hdr(ta, len1), 12 + len1, hdr(ta, len2), 12 + len2, 12 + len2 + 12);
+                let _ = tb;
+                let s = match &r { None => "panic".to_string(), Some(Ok(x)) => format!("ok {x}"), Some(Err(x)) => e(x) };
+                let err = if s == format!("ok {exp}") { None } else { Some(format!("an entry with a multi-byte length is not laid out canonically: expected `{}`", &exp[..exp.len().min(160)])) };
+                out.stats.bump("bigentry");
+                out.stats.nontrivial_case(line);
+                (s, err)
+            }
             "bigalloc" => {
                 // bigalloc <tagidx> <extra>: allocate 2^32 + extra value bytes in a zeroed buffer that has the room for it
                 // (lazily mapped zero pages): the only way to reach the "length not representable" branch with enough room
@@ -543,6 +584,12 @@ pub fn generate_c02(tier: &str, rng: &mut Rng) -> Vec<String> {
 pub fn generate_hist(prop: &str, tier: &str, rng: &mut Rng) -> Vec<String> {
     let thorough = tier == "thorough";
     let mut v = vec![];
+    if prop == "C03" || prop == "C01" {
+        // lengths that need the third and the fourth byte of the length field (>= 2^16, >= 2^24), growing and shrinking
+        for (k, (a, b)) in [(70_000usize, 66_000usize), (66_000, 16_777_300), (16_777_300, 300), (65_535, 65_536), (16_777_215, 16_777_216)].iter().enumerate() {
+            v.push(format!("bigentry {k} {a} {b}"));
+        }
+    }
     if prop == "C04" {
         // the "length not representable" failure with enough room needs a buffer of more than 4 GiB
         for extra in [0usize, 1, 4096] { v.push(format!("bigalloc {} {extra}", rng.below(8))); }
